@@ -132,6 +132,7 @@ class PuritySim:
         self.node_counter = 0
         self.derived_from = {}
         self.cache_fp = {}
+        self.sub_content = {}
         self.fresh_fills = []
         self.tainted = set()
 
@@ -325,6 +326,20 @@ class PuritySim:
                 d = getattr(obj, "__dict__", None)
                 if not d:
                     continue
+                if path and not hasattr(obj, "_array"):
+                    # I1 for sub-objects: a public plain attribute of an object reachable from a node (a dataset's w_tilde
+                    # table, a mapper's mapper_grids ...) must keep its value; attributes that appear later are lazy caches
+                    now = {k: _attr_digest(v, 1) for k, v in d.items() if not k.startswith("_") and k not in catalog.cached_names(type(obj)) and k != "run_time_dict"}
+                    rec = self.sub_content.get(id(obj))
+                    if rec is None:
+                        self.sub_content[id(obj)] = (obj, now)
+                    else:
+                        changed = sorted(k for k in set(now) & set(rec[1]) if now[k] != rec[1][k])
+                        self.sub_content[id(obj)] = (obj, now)
+                        if changed and type(obj).__name__ != "Preloads":
+                            self.stats["checked"] += 1
+                            self.report("object_mutated", type(obj).__name__, changed[0], {"during": what.split(" ")[0], "attributes": changed, "reached_from": type(root).__name__, "path": path},
+                                        "contents unchanged", "changed: " + ",".join(changed))
                 names = [n for n in catalog.cached_names(type(obj)) if n in d]
                 if not names:
                     continue
